@@ -243,6 +243,16 @@ def main(argv):
   s = sub.add_parser("selftest-sensitivity")
   s.add_argument("names", nargs="*")
   s.set_defaults(fn=cmd_selftest_sensitivity)
+  vn = sub.add_parser("validate-ninja")
+  vn.add_argument("--plans", type=int, default=200)
+  vn.add_argument("--broken", type=int, default=150)
+  vn.add_argument("--exec", type=int, default=12, dest="n_exec")
+  vn.set_defaults(fn=lambda a: (__import__("sim.ninja_validate", fromlist=["x"]).validate(
+      a.plans, a.broken, a.n_exec, kernel.verif_seed()), 0)[1])
+  sd = sub.add_parser("selftest-seeded")
+  sd.add_argument("names", nargs="*")
+  sd.add_argument("--tier", default="quick")
+  sd.set_defaults(fn=lambda a: __import__("sim.selftest", fromlist=["x"]).seeded(a.names, a.tier))
   g = sub.add_parser("digests")
   g.add_argument("prop")
   g.add_argument("lo", type=int)
